@@ -81,7 +81,7 @@ class HRNP(BytesInterface):
         ), f"At least 12-bytes for HRNP required, got {len(data)} bytes instead"
         hrnp_packet_len = int.from_bytes(data[8:10], byteorder="big")
         assert len(data) >= hrnp_packet_len, f"packet seems incomplete"
-        return HRNP(
+        hrnp = HRNP(
             header=data[0:1],
             version=data[1:2],
             block_number=data[2],
@@ -92,6 +92,13 @@ class HRNP(BytesInterface):
             checksum=data[10:12],
             data=data[12:hrnp_packet_len],
         )
+        # verify checksum over the bytes as received, re-serialized payload has its
+        # own (HDAP) checksum regenerated, which can mask corrupted payload
+        hrnp.checksum_correct = hrnp.checksum_correct and (
+            HRNP.calculate_checksum(data[0:10] + data[12:hrnp_packet_len])
+            == int.from_bytes(data[10:12], byteorder="big")
+        )
+        return hrnp
 
     def as_bytes(self, endian: Literal["big", "little"] = "big") -> bytes:
         return (
@@ -120,6 +127,23 @@ class HRNP(BytesInterface):
             repr(self.data) if self.opcode == HRNPOpcodes.DATA else ""
         )
 
+    @staticmethod
+    def calculate_checksum(checked_data: bytes) -> int:
+        if len(checked_data) % 2 == 1:
+            # add padding byte
+            checked_data += b"\x00"
+
+        # calc checksum
+        check: int = 0
+
+        for i in range(0, len(checked_data), 2):
+            check += int.from_bytes(checked_data[i : i + 2], byteorder="big")
+
+        while check >> 16:
+            check = (check & 0xFFFF) + (check >> 16)
+
+        return ~check & 0xFFFF
+
     def verify_checksum(
         self, checksum: Union[bytes, int] = b"\x00\x00"
     ) -> Tuple[bool, bytes]:
@@ -137,20 +161,7 @@ class HRNP(BytesInterface):
         if self.has_data():
             checked_data += self.data.as_bytes()
 
-        if len(checked_data) % 2 == 1:
-            # add padding byte
-            checked_data += b"\x00"
-
-        # calc checksum
-        check: int = 0
-
-        for i in range(0, len(checked_data), 2):
-            check += int.from_bytes(checked_data[i : i + 2], byteorder="big")
-
-        while check >> 16:
-            check = (check & 0xFFFF) + (check >> 16)
-
-        check = ~check & 0xFFFF
+        check: int = HRNP.calculate_checksum(checked_data)
 
         # make check and checksum comparable
         checksum: int = (
